@@ -16,6 +16,8 @@ var registry = map[string]func(){}
 func register(name string, f func()) { registry[name] = f }
 
 type replayReq struct {
+	Mode    string           `json:"mode,omitempty"` // "" = harness replay, "race" = concurrent probe on Text
+	Text    string           `json:"text,omitempty"`
 	Harness string           `json:"harness"`
 	Params  map[string]int64 `json:"params"`
 	Vals    []int64          `json:"vals"`
@@ -64,6 +66,12 @@ func Main() {
 		var req replayReq
 		if err := json.Unmarshal(sc.Bytes(), &req); err != nil {
 			fmt.Fprintf(w, "[\"BAD-REQUEST %s\"]\n", err)
+			continue
+		}
+		if req.Mode == "race" {
+			raceProbe(req.Text)
+			w.WriteString("[\"RACE-PROBE-DONE\"]\n")
+			w.Flush()
 			continue
 		}
 		res := RunOne(req)
